@@ -150,6 +150,16 @@ class Runner:
                 ctx.reject(case, "generated code does not compile: " + real[1], SIG_NFKC)
                 ctx.count("oracle_known_nfkc")
                 continue
+            if not guards["noalias"]:
+                # NFKC-equal identifiers: outside the model's exactness claim (e.g. a parameter-typed
+                # local can then hold `missing`, which the generated code prints unchecked); whatever the
+                # engine does differently from the rules here is the recorded aliasing finding
+                if oracle_fail:
+                    ctx.reject(case, oracle_fail, SIG_NFKC)
+                    ctx.count("oracle_known_nfkc")
+                else:
+                    ctx.validated()
+                continue
             if real != f:
                 self.run_mismatch = getattr(self, "run_mismatch", [])
                 self.run_mismatch.append((len(src), case, f, real, oracle_fail, guards))
